@@ -122,6 +122,11 @@ def gen_case(r, idx, tier):
     noise = float(r.choice([0.0, 1e-4, 0.01, 0.05, 0.3]))
     sel = SELS[int(r.integers(len(SELS)))]
     boundary = bool(r.random() < 0.35)
+    if idx % 106 == 7:
+        # many peaks AND large indices on a well-fitting orientation: every entry of sum h h^T is far above 2^31, all
+        # peaks selected - the accumulators of every implementation (C and Python) must hold that
+        kind, hmax, noise, sel, boundary, tol = "good", 1000, 1e-4, "normal", False, 0.05
+        ubi = np.linalg.inv(UB)
     h = r.integers(-hmax, hmax + 1, (n, 3)).astype(float)
     if sel == "coplanar":
         h[:, int(r.integers(3))] = 0
@@ -312,7 +317,7 @@ def one_case(run, seed, idx, mods, libs):
               "(npk %d vs %d)" % (npkF, npk))
 
     # ---- python indexing.refine as a second opinion (needs >=1 selected peak, else it raises by design)
-    if n_lo == n_hi and n_lo > 0 and (n <= 100 or r.random() < 0.4):
+    if n_lo == n_hi and n_lo > 0 and (n <= 100 or r.random() < 0.4 or idx % 106 == 7):
         python_refine(run, V, indexing, d, ubi, gv, ih, np.asarray(inside), tol, hm)
 
 
